@@ -18,6 +18,37 @@ CHECKS = {
     technique="TLA+ spec RtStream/RtStreamAbs checked by TLC (ClockMonotone, FlushPaired, NoNestedFlush) + negative configurations + replay of TLC-generated protocol-conformant programs through libovni, trace validation and ovniemu -l",
     text="Same models as C01 with the validity invariants (tiling, monotone clocks, paired non-nested flush markers); the arithmetic of the pinned commit is kept as a negative configuration that TLC must refute. Every generated program is run against the real library, its stream validated by RtStreamTrace.tla (observed markers paired, clocks monotone, sizes) and the directory is fed to ovniemu -l which must accept.",
     note="Programs are single-threaded protocol-conformant scripts (multi-thread isolation is C11). Exhaustive within constants; the emulator is part of the observation."),
+
+ "C04": dict(
+    level="model_checking", ref="DESIGN.md §4 C04",
+    technique="TLA+ spec EmuCore/EmuFull (thread state machine) explored by TLC; one ovniemu history per model transition (accepted and rejected, with legal completion); observed thread.prv timelines and verdict validated by EmuTrace.tla",
+    text="TLC enumerates the full state graph of 2 threads x {OHx,OHp,OHr,OHc,OHw,OHe} x 3 CPU targets with invariants (TidShownIffActive, CpuIffStarted, ...). Every transition of the graph becomes a synthetic trace replayed by the real ovniemu; trace validation compares the state/TID/CPU timelines after every event and the final verdict with the specification, so both directions of the 'accepted exactly when legal' claim are exercised.",
+    note="Bounded: 2 threads, histories up to the graph diameter; rows identified through .row names. A dead thread executing again is Unspecified."),
+ "C05": dict(
+    level="model_checking", ref="DESIGN.md §4 C05",
+    technique="TLA+ spec EmuCore (CPU occupancy, local/remote affinity) explored by TLC; transition-cover histories replayed on ovniemu; cpu.prv/thread.prv timelines validated by EmuTrace.tla",
+    text="Bounded model with 4 threads in 3 processes and 2 looms, physical and virtual CPUs, OHx/OHp/OHr/OHe/OAs/OAr incl. malformed payloads and foreign looms; invariants NoPhysOversubscription, CpuMirrorsThreads. Sampled (quick) or full (thorough) transition cover replayed on the emulator and validated event by event (nrunning, TID, PID per CPU).",
+    note="OAr to the CPU the thread is already on is Unspecified (refused by a duplicate rule the property does not mention)."),
+ "C06": dict(
+    level="model_checking", ref="DESIGN.md §4 C06",
+    technique="TLA+ spec Emu (View = function of thread state, binding and raw channel values) explored by TLC over all interleavings of value/state/affinity events; histories replayed on ovniemu for every published channel of every model; views validated by EmuTrace.tla",
+    text="Property layer View(thread/CPU, quantity, tracking mode) is checked on the real Paraver output after every event of TLC-generated histories (one channel per tracking mode ANY/RUN/ACT, stack and single), and the accepted histories are re-instantiated for each of the 19 published channels of the 8 models (table spec/data/events.json).",
+    note="The implementation-layer patch bay (dirty list / mux callbacks) is not yet a separate TLA+ refinement; the code is bound directly to the property layer. CPU idle default (Resting) is allowed where the property allows it."),
+ "C07": dict(
+    level="model_checking", ref="DESIGN.md §4 C07",
+    technique="TLA+ spec EmuFull (task/body state machine of task.c/body.c with the nOS-V and Nanos6 rules) explored by TLC with invariants; transition cover replayed on ovniemu; task id/type/body/app/rank timelines validated by EmuTrace.tla",
+    text="Bounded nOS-V model (normal, parallel and second normal task, 2 threads, rank) and Nanos6 model (relaxed nesting) explored exhaustively with BodyRunsOnAtMostOneThread, OnlyTopRuns, TaskChansMirrorBodies, ParallelNeverPaused; 8000 (quick) histories incl. every rejected transition class replayed on the emulator.",
+    note="Task types compared through PCF labels; a Nanos6 task started directly over TASK_BODY is Unspecified."),
+ "C08": dict(
+    level="model_checking", ref="DESIGN.md §4 C08",
+    technique="TLA+ spec Emu (stack machine over committed event tables EventData.tla) explored by TLC per model; transition cover + every enter/leave pair of all 8 models in 10 shapes + depth probes replayed on ovniemu -l and validated by EmuTrace.tla",
+    text="For each model a bounded instance (3 region kinds, bystander thread, thread state changes) is explored and replayed; additionally all 149 push/pop pairs of the tables are exercised (enter/leave/mismatch/empty/lint/state precondition/nesting) and the 512-deep stack limit is probed; the value shown for the innermost region comes from the committed table.",
+    note="Tables are committed data (spec/data/events.json) transcribed from documentation and model tables; immediate re-entry is Unspecified."),
+ "C17": dict(
+    level="model_checking", ref="DESIGN.md §4 C17",
+    technique="TLA+ spec EmuFull (mark channels: stack/single, ACTIVE/RUNNING tracking) explored by TLC; transition cover replayed on ovniemu and validated by EmuTrace.tla; runtime side through drivers/rtdrive",
+    text="Bounded model with a stack and a single mark type, two threads, pause/cool/migrate; push on single, set on stack, zero values, undefined types and mismatched pops must be rejected; timelines of types 101/102 on thread and CPU rows validated after every event.",
+    note="Runtime-side refusals and label merging are covered by the runtime mark programs (see evidence notes)."),
 }
 
 NA_REASON = "check not built yet in this round (planned, see DESIGN.md §4/§8); not claimed until its machinery exists"
